@@ -47,7 +47,7 @@ impl Store for Rec {
         let mut i = self.0.borrow_mut();
         i.gets += 1;
         let r = i.store.get(key, now);
-        // stale-forget event (the known-finding class): the table lost an entry that is live at `now` AND some call made AFTER
+        // stale-forget event (the known-finding class): the table lost an entry that is live at `now` AND some WRITE made AFTER
         // the entry was written carried a timestamp at or past its expiry (a sweep triggered at that later instant reclaims it
         // legitimately).  A live entry that is gone although no later call ever reached its expiry is NOT in the class.
         let gv = i.ghost.get(key).and_then(|(v, e)| if time_to_ns(now) < *e { Some((*v, *e)) } else { None });
@@ -57,7 +57,8 @@ impl Store for Rec {
         if i.last_get_stale {
             i.stale_events += 1;
         }
-        i.nows.push(time_to_ns(now));
+        // only WRITES can sweep (get takes &self): lookups are not recorded in `nows` - the ghost run of coq/Store/NoLoss.v
+        // (theorem C17_stale_forget_only_after_later_stamp) bumps on writes only
         i.max_now = i.max_now.max(time_to_ns(now));
         r
     }
